@@ -11,25 +11,26 @@ Local Open Scope string_scope.
    modelled grammar, every well-formed object satisfying the hint at full depth, every draw
    (all of Z, a superset of the 2^32 draws) and whatever the user callables do, the generated
    check expression evaluates without raising and accepts. *)
-Theorem C01_no_false_alarm : forall cf r preds h x,
-  hint_ok h = true -> wf x = true -> sat h x = true ->
-  verdict r preds (check_expr cf h) x = Ok true.
+Theorem C01_no_false_alarm : forall cf r pb h x,
+  hint_ok h = true -> wf x = true -> sat pb h x = true ->
+  verdict r (preds_of pb) (check_expr cf h) x = Ok true.
 Proof.
-  intros cf r preds h x Hok Hw Hs.
-  rewrite (check_expr_correct cf r preds h x Hok Hw). f_equal. now apply check_sound.
+  intros cf r pb h x Hok Hw Hs.
+  rewrite (check_expr_correct cf r pb h x Hok Hw). f_equal. now apply check_sound.
 Qed.
 Print Assumptions C01_no_false_alarm.
 
 (* The generated expression is total: on any well-formed object it returns a verdict, it never
    raises (no len() of an unsized object, no index out of range, no exhausted iterator ...). *)
-Theorem C01_check_total : forall cf r preds h x,
+Theorem C01_check_total : forall cf r pb h x,
   hint_ok h = true -> wf x = true ->
-  verdict r preds (check_expr cf h) x = Ok (check cf r h x).
+  verdict r (preds_of pb) (check_expr cf h) x = Ok (check cf r pb h x).
 Proof. exact check_expr_correct. Qed.
 Print Assumptions C01_check_total.
 
 (* ---- non-vacuity: a nested hint, an object that satisfies it, and one that does not ---- *)
-Definition no_preds_demo (f : nat) (v : pyval) : res pyval := Exc TypeError.
+Definition no_pb (f : nat) (v : pyval) : bool := false.
+Definition no_preds_demo := preds_of no_pb.
 
 Definition demo_hint : hint :=
   HUnion [HCls c_NoneType;
@@ -42,8 +43,8 @@ Definition demo_bad : pyval :=
   VMap c_dict [(VStr "k", VCont c_list [VInt 3; VCont c_tuple [VStr "x"; VCont c_set [VStr "b"]]])].
 
 Example C01_demo :
-  hint_ok demo_hint = true /\ wf demo_good = true /\ sat demo_hint demo_good = true
-  /\ wf demo_bad = true /\ sat demo_hint demo_bad = false
+  hint_ok demo_hint = true /\ wf demo_good = true /\ sat no_pb demo_hint demo_good = true
+  /\ wf demo_bad = true /\ sat no_pb demo_hint demo_bad = false
   /\ verdict 1 no_preds_demo (check_expr {| is_random := true |} demo_hint) demo_bad = Ok false
   /\ verdict 0 no_preds_demo (check_expr {| is_random := true |} demo_hint) demo_bad = Ok true.
 Proof. vm_compute. repeat split. Qed.
